@@ -47,6 +47,12 @@ def SegEv (cs : CharSpec) : Seg → Ev α → Prop
   | .cookware c _, .cookware i => CwMatches cs c i.val
   | _, _ => False
 
+/-- one event per segment, in order -/
+inductive SegsEvs (cs : CharSpec) : List Seg → List (Ev α) → Prop
+  | nil : SegsEvs cs [] []
+  | cons {seg : Seg} {ev : Ev α} {segs : List Seg} {evs : List (Ev α)} :
+      SegEv cs seg ev → SegsEvs cs segs evs → SegsEvs cs (seg :: segs) (ev :: evs)
+
 theorem pushEv_run (ev : Ev α) (s : BP α) : pushEv ev s = ((), { s with evs := s.evs.push ev }) := rfl
 
 theorem text_frags_ne (t : Text) (h : t.text ≠ []) : t.frags.isEmpty = false := by
@@ -113,5 +119,151 @@ theorem stepOne_cookware (c : AComp) (p : CPad) (s : BP α) (hwf : c.wfCookware 
   unfold stepOne
   simp only [bind, StateT.bind, h1, hts, List.cons_append, List.head?_cons, Option.map_some, htmk, tk,
     withRecover_run, hrunI, Option.isNone_some, Bool.false_eq_true, if_false, pushEv_run]
+
+theorem restOK_transfer {c : AComp} {rest trest : List Tok} (hs : Spells trest rest) (h : restOK c rest = true) :
+    restOK c trest = true := by
+  unfold restOK at *
+  cases hn : c.note.isSome with
+  | true => simp
+  | false =>
+    simp only [hn, Bool.false_or] at h ⊢
+    have hk := hs.head_kind
+    cases hr : rest.head? with
+    | none =>
+      rw [hr] at hk
+      cases ht : trest.head? with
+      | none => rfl
+      | some t => rw [ht] at hk; simp at hk
+    | some u =>
+      rw [hr] at hk h
+      cases ht : trest.head? with
+      | none => rfl
+      | some t =>
+        rw [ht] at hk
+        simp only [Option.map_some, Option.some.injEq] at hk
+        simp only [Option.all_some, bne_iff_ne, ne_eq] at h ⊢
+        rw [hk]; exact h
+
+theorem restToks_run (s : BP α) : restToks s = (s.toks.drop s.cur, s) := rfl
+
+/-- the step loop over a list of segments: one event per segment, in order, nothing else -/
+theorem stepLoop_segs : ∀ (segs : List Seg) (fuel : Nat) (s : BP α) (A tsegs : List Tok),
+    Spells tsegs (segs.flatMap Seg.spell) → s.toks = A ++ tsegs → s.cur = A.length →
+    RunAt (baseOff s.toks) s.toks → segsOK s.cs s.ext segs = true → tsegs.length ≤ fuel →
+    ∃ (evs : List (Ev α)) (arr : Array (Ev α)),
+      stepLoop fuel s = ((), { s with cur := A.length + tsegs.length, evs := arr }) ∧
+      arr.toList = s.evs.toList ++ evs ∧ SegsEvs s.cs segs evs := by
+  intro segs
+  induction segs with
+  | nil =>
+    intro fuel s A tsegs hs ht hc hrun hok hf
+    simp only [List.flatMap_nil] at hs
+    have := hs.nil_inv; subst this
+    have hd : s.toks.drop s.cur = [] := by rw [ht, hc]; simp
+    refine ⟨[], s.evs, ?_, by simp, SegsEvs.nil⟩
+    cases fuel with
+    | zero =>
+      unfold stepLoop
+      simp only [bind, StateT.bind, restToks_run, hd, List.isEmpty_nil, Bool.not_true, Bool.false_eq_true, if_false,
+        List.length_nil, Nat.add_zero, ← hc]
+      rfl
+    | succ f =>
+      unfold stepLoop
+      simp only [bind, StateT.bind, restToks_run, hd, List.isEmpty_nil, if_true, List.length_nil, Nat.add_zero, ← hc]
+      rfl
+  | cons seg rest ih =>
+    intro fuel s A tsegs hs ht hc hrun hok hf
+    simp only [List.flatMap_cons] at hs
+    obtain ⟨tseg, trest, rfl, hseg, hrest⟩ := hs.append_inv
+    simp only [segsOK, Bool.and_eq_true] at hok
+    obtain ⟨⟨hsok, hfol⟩, hrok⟩ := hok
+    -- one step, then the rest
+    have key : ∀ (ev : Ev α), tseg ≠ [] →
+        stepOne s = ((), { s with cur := A.length + tseg.length, evs := s.evs.push ev }) → SegEv s.cs seg ev →
+        ∃ (evs : List (Ev α)) (arr : Array (Ev α)),
+          stepLoop fuel s = ((), { s with cur := A.length + (tseg ++ trest).length, evs := arr }) ∧
+          arr.toList = s.evs.toList ++ evs ∧ SegsEvs s.cs (seg :: rest) evs := by
+      intro ev hne hstep hev
+      have hpos : 0 < tseg.length := List.length_pos_iff.mpr hne
+      obtain ⟨f, rfl⟩ : ∃ f, fuel = f + 1 := by
+        cases tseg with
+        | nil => exact absurd rfl hne
+        | cons t r => exact ⟨fuel - 1, by simp at hf; omega⟩
+      obtain ⟨evs', arr', hl, harr, hall⟩ := ih f ({ s with cur := A.length + tseg.length, evs := s.evs.push ev } : BP α)
+        (A ++ tseg) trest hrest (by simp [ht]) (by simp) hrun hrok
+        (by simp only [List.length_append] at hf; omega)
+      refine ⟨ev :: evs', arr', ?_, by rw [harr]; simp, SegsEvs.cons hev hall⟩
+      have hd : (s.toks.drop s.cur).isEmpty = false := by
+        rw [ht, hc, List.drop_left]
+        cases tseg with
+        | nil => exact absurd rfl hne
+        | cons t r => rfl
+      unfold stepLoop
+      simp only [bind, StateT.bind, restToks_run, hd, Bool.false_eq_true, if_false, hstep, hl]
+      congr 2
+      simp only [List.length_append]; omega
+    cases seg with
+    | text l =>
+      simp only [Seg.ok, Bool.and_eq_true, Bool.not_eq_true', List.isEmpty_eq_false_iff, List.all_eq_true] at hsok
+      obtain ⟨⟨hlne, hlm⟩, hlv⟩ := hsok
+      simp only [Seg.spell] at hseg
+      cases tseg with
+      | nil => have := hseg.length; simp at this; exact absurd (List.length_eq_zero_iff.mp this.symm) hlne
+      | cons t0 tl =>
+        have hnm : ∀ t ∈ t0 :: tl, isMarker t.kind = false := by
+          intro t ht'
+          obtain ⟨u, hu, hk, -⟩ := hseg.mem ht'
+          rw [hk]; simpa using hlm u hu
+        have hC : ∀ t, trest.head? = some t → isMarker t.kind = true := by
+          intro t ht'
+          cases rest with
+          | nil => simp only [List.flatMap_nil] at hrest; rw [hrest.nil_inv] at ht'; simp at ht'
+          | cons sg rest' =>
+            simp only [List.flatMap_cons] at hrest
+            obtain ⟨tsg, r', rfl, hsg, -⟩ := hrest.append_inv
+            cases sg with
+            | text _ => simp [Seg.followOK] at hfol
+            | ingredient c p =>
+              obtain ⟨tm, r, rfl, hk⟩ := comp_head hsg
+              simp at ht'; subst ht'; rw [hk]; rfl
+            | cookware c p =>
+              obtain ⟨tm, r, rfl, hk⟩ := comp_head hsg
+              simp at ht'; subst ht'; rw [hk]; rfl
+        have hvis : (t0 :: tl).flatMap vis ≠ [] := by
+          rw [hseg.vis_eq]; intro h0; rw [h0] at hlv; simp at hlv
+        obtain ⟨t, hstep, htx⟩ := stepOne_text s A t0 tl trest ht hc (hnm t0 (by simp))
+          (fun x hx => hnm x (by simp [hx])) hC hvis hrun
+        exact key (.text t) (by simp) hstep (by simp only [SegEv]; rw [htx, hseg.vis_eq])
+    | ingredient c p =>
+      simp only [Seg.ok, Bool.and_eq_true] at hsok
+      simp only [Seg.spell] at hseg
+      simp only [Seg.followOK] at hfol
+      obtain ⟨i, hstep, hm⟩ := stepOne_ingredient c p s hsok.1 hsok.2 A tseg trest hseg ht hc
+        (restOK_transfer hrest hfol) hrun
+      obtain ⟨tm, r, hts, -⟩ := comp_head hseg
+      exact key (.ingredient i) (by rw [hts]; simp) hstep hm
+    | cookware c p =>
+      simp only [Seg.ok, Bool.and_eq_true] at hsok
+      simp only [Seg.spell] at hseg
+      simp only [Seg.followOK] at hfol
+      obtain ⟨i, hstep, hm⟩ := stepOne_cookware c p s hsok.1 hsok.2 A tseg trest hseg ht hc
+        (restOK_transfer hrest hfol) hrun
+      obtain ⟨tm, r, hts, -⟩ := comp_head hseg
+      exact key (.cookware i) (by rw [hts]; simp) hstep hm
+
+theorem rt_parseStep (segs : List Seg) (s : BP α) (ts : List Tok) (hs : Spells ts (segs.flatMap Seg.spell))
+    (ht : s.toks = ts) (hc : s.cur = 0) (hrun : RunAt (baseOff ts) ts) (hok : segsOK s.cs s.ext segs = true) :
+    ∃ (evs : List (Ev α)) (arr : Array (Ev α)),
+      parseStep s = ((), { s with cur := ts.length, evs := arr }) ∧
+      arr.toList = s.evs.toList ++ [.start .step] ++ evs ++ [.stop .step] ∧ SegsEvs s.cs segs evs := by
+  subst ht
+  obtain ⟨evs, arr, hl, harr, hall⟩ := stepLoop_segs segs s.toks.length
+    ({ s with evs := s.evs.push (.start .step) } : BP α) [] s.toks hs (by simp) (by simpa using hc) hrun hok
+    (Nat.le_refl _)
+  refine ⟨evs, arr.push (.stop .step), ?_, by simp [harr], hall⟩
+  unfold parseStep
+  have hd : (s.toks.drop s.cur).length = s.toks.length := by rw [hc]; simp
+  simp only [bind, StateT.bind, pushEv_run, restToks_run, hd, hl]
+  simp
 
 end Cook
